@@ -8,6 +8,8 @@ CLAIMED = {
              note='Trusts clang-14 IR generation, the IR interpreter (validated per run against the native build on test inputs), z3; libc strtoll/timegm/gmtime_r are contract models.', ref='§2 C13'),
  'C16': dict(text='Bounded symbolic model checking of the real comparators: strict-weak-order axioms, mutual consistency and agreement with the documented (type, id rule, version) key for three objects whose type, 64-bit id, version, timestamp and visibility are fully symbolic; CheckOrder against the strict order on short symbolic sequences from a fresh state.',
              note='std::stable_sort itself is not encoded (its contract is the link between the axioms and sorted output); ids exclude INT64_MIN (documented domain); timestamps valid where the order uses them.', ref='§2 C16'),
+ 'C14': dict(text='Bounded symbolic model checking of the real escaping and parsing functions: OPL escape followed by the OPL string parser is the identity for every Unicode scalar value (symbolic 21-bit value) and for all strings of two of them, with no structural character in the escaped form (round trip implies injectivity); every byte string up to the stated length in an exact-size buffer gives no access past the terminator and the documented exception class; XML escaping is undone by a reference attribute-value decoder.',
+             note='expat is represented by a 20-line XML 1.0 attribute-value decoder in the harness; strings longer than the bound are covered only through per-code-point behaviour.', ref='§2 C14'),
 }
 NA = {
  'C19': 'The property is its schedule quantifier (lost wake-ups, FIFO under contention, exactly-once execution); bounded symbolic interleaving with cbmc did not finish a 2-thread toy monitor in 200 s here, and enumerating schedules would be a different technique family.',
